@@ -35,7 +35,7 @@ OBLIGATIONS = [
     s(1, 'empty_feb30', {'NMON': 1, 'NDOM': 1}, ['EMPTY=ASSUME(in.mon[0] == 2 && in.dom[0] >= 30)'], cand=1, uw={'rrul_fill_yly.*': 68}, timeout=1500, tiers=T),
     s(2, 'empty_feb30', {'NMON': 1, 'NDOM': 1}, ['EMPTY=ASSUME(in.mon[0] == 2 && in.dom[0] >= 30)'], cand=1, uw={'rrul_fill_mly.*': 68}, timeout=1500, tiers=T),
     # BYMONTH months that INTERVAL can never reach from DTSTART's month: the month-skipping loop must not be entered
-    s(2, 'empty_incongruent_bymonth', {'NMON': 1}, ['EMPTY=ASSUME((in.mon[0] - in.m) % 3 != 0)'], inter=3, cand=1, uw={'rrul_fill_mly.*': 16}),
+    s(2, 'empty_incongruent_bymonth', {'NMON': 1}, ['EMPTY=ASSUME((in.mon[0] - in.m) % 3 != 0)'], inter=3, cand=1, uw={'rrul_fill_mly.*': 16}, tiers=T),
     s(2, 'empty_incongruent_bymonth', {'NMON': 1}, ['EMPTY=ASSUME((in.mon[0] - in.m) % 6 != 0)'], inter=6, cand=1, uw={'rrul_fill_mly.*': 16}, tiers=T),
     s(4, 'empty_feb30', {'NMON': 1, 'NDOM': 1}, ['EMPTY=ASSUME(in.mon[0] == 2 && in.dom[0] >= 30)', 'YMIN=2098'], cand=1, uw={'rrul_fill_dly.*': 740}, timeout=1500),
     s(5, 'empty_oddhour', {'NH': 1}, ['EMPTY=ASSUME((in.bh[0] & 1) != (in.H & 1))', 'YMIN=2098', 'DMIN=30'], inter=2, cand=1, uw={'rrul_fill_Hly.*': 40}),
